@@ -5,6 +5,7 @@ package sim
 
 import (
 	"fmt"
+	"reflect"
 	"sort"
 	"strings"
 
@@ -70,8 +71,10 @@ func genNumericScenario(c *Ctx, rt *rapid.T, sp *numericSpec) *Scenario {
 }
 
 func decodeParams(sc *Scenario, into interface{}) {
-	b, _ := jsonMarshal(sc.Params)
+	b, _ := jsonMarshal(wireCopy(sc.Params, wireEncode))
 	jsonUnmarshal(b, into)
+	v := reflect.ValueOf(into)
+	v.Elem().Set(mapStrings(v.Elem(), wireDecode))
 }
 
 // verifyRoots checks the model's resolution of ROOT expressions against
